@@ -75,6 +75,19 @@ Theorem C15_ehlo_lines_exact : forall (r : response) (i : sinfo), from_response 
   f_login i = existsb (auth_lists (bs "LOGIN")) (tl (rlines r)) /\
   f_xoauth2 i = existsb (auth_lists (bs "XOAUTH2")) (tl (rlines r)).
 Proof. exact from_response_exact. Qed.
+(* in particular a keyword is recognised in every spelling of its letters (RFC 5321 2.4): a line whose first word is
+   STARTTLS in any letter case makes the client see the offer, wherever it stands after the first line *)
+Theorem C15_starttls_any_case : forall (r : response) (i : sinfo) (line : bytes), from_response r = Ok i ->
+  In line (tl (rlines r)) -> first_is (bs "STARTTLS") line = true -> f_starttls i = true.
+Proof.
+  intros r i line H Hin Hf. destruct (from_response_exact r i H) as (_ & _ & _ & E & _). rewrite E.
+  apply existsb_exists. exists line. split; assumption.
+Qed.
+Example C15_starttls_spellings :
+  forallb (first_is (bs "STARTTLS")) [bs "STARTTLS"; bs "StartTLS"; bs "Starttls"; bs "starttls"; bs " sTaRtTlS  extra"] = true /\
+  first_is (bs "STARTTLS") (bs "X-STARTTLS") = false /\ first_is (bs "STARTTLS") (bs "STARTTLSX") = false.
+Proof. vm_compute. repeat split. Qed.
+
 Example C15_ehlo_example :
   from_response (mkResp (mkCode 2 5 0) [bs "mx.example STARTTLS AUTH XOAUTH2"; bs "auth plain LOGIN"; bs "StartTLS"; bs "X-AUTH XOAUTH2"; bs "SIZE 8BITMIME"])
   = Ok (mkInfo (bs "mx.example") false false true true true false).
@@ -87,3 +100,4 @@ Print Assumptions C15_eof_no_wait.
 Print Assumptions C15_read_only_consumes.
 Print Assumptions C15_read_exact.
 Print Assumptions C15_ehlo_lines_exact.
+Print Assumptions C15_starttls_any_case.
